@@ -6,7 +6,7 @@ package tcp
 
 //@ struct dialer
 //@   lock lock level 50
-//@   guarded_by lock: maxRecvSize
+//@   guarded_by lock: maxRecvSize d
 //@   immutable: addr proto hs
 //@
 //@ struct listener
